@@ -72,6 +72,36 @@ type Engine struct {
 	budget    int
 	runs      int
 	runCount  map[string]int
+	obsActive bool
+	lastArgs  []AV
+	pinned    []AV // values whose facts must survive garbage collection (standalone runs)
+}
+
+// RunStandalone analyses fn on the given context-free arguments using the shapes and summaries of
+// the finished global analysis. Nothing is recorded; obs sees every executed instruction.
+func (eng *Engine) RunStandalone(fn *ssa.Function, args []CF, obs Observer) []Outcome {
+	saveObs, saveFinal := eng.observers, eng.final
+	eng.observers = []Observer{obs}
+	eng.obsActive = true
+	eng.final = false
+	defer func() { eng.observers, eng.final, eng.obsActive = saveObs, saveFinal, false }()
+	env := newEnv()
+	var avs []AV
+	for i, p := range fn.Params {
+		c := defaultCF(p.Type(), 0)
+		if i < len(args) && args[i].K != KBot {
+			c = args[i]
+		}
+		avs = append(avs, eng.fromCF(env, c, p.Type(), fmt.Sprintf("standalone:%s:%d", fn.String(), i)))
+	}
+	eng.ctx = []string{"standalone:" + fn.String()}
+	eng.pinned = avs
+	eng.lastArgs = avs
+	outs := eng.runFunction(fn, env, avs)
+	eng.pinned = nil
+	eng.ctx = nil
+	// summaries and entry states must not be disturbed by exploratory runs
+	return outs
 }
 
 func (eng *Engine) dumpRunCounts() {
@@ -1234,7 +1264,7 @@ func (eng *Engine) runFunction(fn *ssa.Function, env *Env, args []AV) []Outcome 
 				delete(e.vals, v)
 			}
 		}
-		e.gc(nil)
+		e.gc(eng.pinned)
 		eng.checkEnv(e, "after-gc:"+fn.Name())
 		if isLoopHeader(b) || s.forced {
 			if s.joined == nil {
@@ -1429,6 +1459,12 @@ func (eng *Engine) flow(pred, succ *ssa.BasicBlock, env *Env, deliver func(*ssa.
 }
 
 func (eng *Engine) observe(fn *ssa.Function, in ssa.Instruction, env *Env) {
+	if eng.obsActive {
+		for _, o := range eng.observers {
+			o.Visit(eng, fn, in, env)
+		}
+		return
+	}
 	if !eng.final {
 		return
 	}
